@@ -195,21 +195,21 @@ def r3_session_id(chk, fx):
     paths = A.Interp(fx, crates=("netconf",), max_paths=6000, no_inline=("Capabilities as netconf::message::ReadXml>::read_xml",)).explore(rn)
     chk.floor("C12/R3 ServerHello reader paths", len(paths), 8)
     from .c16 import holds_true, ret_is_err
-    for el in ("capabilities", "session-id"):
-        var = el.replace("-", "_")
-        again = [p for p in paths if holds_true(p, "'%s'" % el) and any(k.startswith("variant:«loop:%s" % var) and v == "Some" for k, v in p.assume.items())]
-        chk.instance("C12/R3", "a second <%s> is an error (%d paths)" % (el, len(again)), rn, loc_of(t.get("sp")),
-                     holds=bool(again) and all(ret_is_err(p) for p in again), key="C12/R3 ServerHello duplicate-%s" % el)
-    # .. and the once-only guard is only as good as what the arm leaves behind: an accepted element fills its slot with Some(..) on
-    # every path that goes on reading (a slot left empty — `slot = parse_optional(..)?` — lets the next such element in as "the first")
-    for el in ("capabilities", "session-id"):
-        took = [p for p in paths if holds_true(p, "'%s'" % el) and p.end == "iter-end" and p.assigns()]
-        loose = []
-        for p in took:
-            for a in p.assigns():
-                v = a[2]
-                if not (A.is_opt(v) and v[2] == "Some"):
-                    loose.append(A.vstr(v)[:80])
+    # the slots of the reader: the loop-carried variables an element iteration assigns (capabilities, session_id — whatever they are called)
+    slots = sorted({a[1] for p in paths if p.end == "iter-end" for a in p.assigns()})
+    chk.floor("C12/R3 ServerHello slots", len(slots), 2)
+    for var in slots:
+        el = var.replace("_", "-")
+        # a second <el> is an error: the arm that fills the slot runs only while the slot is empty (whatever the order of the guard's
+        # conjuncts), and no other arm accepts an element silently (below) — so the repeat falls through to the arm that fails
+        fills = [p for p in paths if any(a[1] == var for a in p.assigns())]
+        guarded = [p for p in fills if p.assume.get("variant:«loop:%s»" % var) == "None" or "Some" in (p.assume.get("notvariant:«loop:%s»" % var) or ())]
+        chk.instance("C12/R3", "a second <%s> is an error: the slot is filled only while it is empty (%d filling paths)" % (el, len(fills)), rn, loc_of(t.get("sp")),
+                     holds=bool(fills) and len(guarded) == len(fills), key="C12/R3 ServerHello duplicate-%s" % el)
+        # .. and the once-only guard is only as good as what the arm leaves behind: an accepted element fills its slot with Some(..) on
+        # every path that goes on reading (a slot left empty — `slot = parse_optional(..)?` — lets the next such element in as "the first")
+        took = [p for p in fills if p.end == "iter-end"]
+        loose = [A.vstr(a[2])[:80] for p in took for a in p.assigns() if a[1] == var and not (A.is_opt(a[2]) and a[2][2] == "Some")]
         chk.instance("C12/R3", "an accepted <%s> fills its slot (%d paths)" % (el, len(took)), rn, loc_of(t.get("sp")), holds=bool(took) and not loose,
                      key="C12/R3 ServerHello accepted-%s-may-leave-slot-empty" % el,
                      detail=None if not loose else "the slot is given %s: when that is None the once-only guard does not see the element, and a second one is accepted" % loose[0])
@@ -219,9 +219,10 @@ def r3_session_id(chk, fx):
     chk.instance("C12/R3", "<hello>: a repeated or unknown element is an error — only comments are skipped (%d skipping paths)" % len(quiet), rn, loc_of(t.get("sp")),
                  holds=bool(quiet) and not bad, key="C12/R3 <hello::ServerHello>::read_xml lenient-arm",
                  detail=None if not bad else "an iteration of the reader loop accepts content without naming it: a second <session-id>/<capabilities> is swallowed there")
-    post = [p for p in paths if p.after_loop_with("read_resolved_event")]
-    for el in ("capabilities", "session-id"):
-        var = el.replace("-", "_")
+    # paths that end the function (after the loop, or out of it: `break Ok(Self{..})` in the arm of the closing tag)
+    post = [p for p in paths if p.end in ("return", "fallthrough")]
+    for var in slots:
+        el = var.replace("_", "-")
         miss = [p for p in post if any(k.startswith("variant:«loop:%s" % var) and v == "None" for k, v in p.assume.items())
                 or any(k.startswith("notvariant:«loop:%s" % var) for k in p.assume)]
         chk.instance("C12/R3", "missing <%s> is an error" % el, rn, None, holds=bool(miss) and all(ret_is_err(p) for p in miss),
@@ -343,6 +344,20 @@ def r5_simultaneous(chk, fx):
     hello are driven by one and the same suspension point — if the send is awaited to completion before the receive is first
     polled, a peer that writes its own hello first over a transport with a small window deadlocks against us."""
     b = fx.user_coroutine("netconf::session::Session::<T>::new")
+    if not (b.calls_to("ClientMsg::send", user_only=True) and b.calls_to("ServerMsg::recv", user_only=True)):
+        # the exchange may live in an async helper Session::new awaits (`exchange_hellos`): the rule reads the body that creates both futures
+        for c in b.calls():
+            tgt = None if c.macro else (c.rdef if (c.rdef or "").startswith("netconf::session::") else c.defn if (c.defn or "").startswith("netconf::session::") else None)
+            if tgt is None or "::{closure" in tgt:
+                continue
+            try:
+                hb = fx.user_coroutine(tgt)
+            except F.AnchorLost:
+                continue
+            if hb.calls_to("ClientMsg::send", user_only=True) and hb.calls_to("ServerMsg::recv", user_only=True):
+                b = hb
+                break
+    chk.analysed(b.name)
     send = b.calls_to("ClientMsg::send", user_only=True)
     recv = b.calls_to("ServerMsg::recv", user_only=True)
     if len(send) != 1 or len(recv) != 1:
